@@ -6,6 +6,10 @@ def main():
     pid = case["property"]
     mod = importlib.import_module(f"harness.props.{pid.lower()}")
     print(f"replaying {pid}: {case['what']}")
+    if isinstance(case["case"], dict) and case["case"].get("ext"):
+        # extended (implementation-only) stream: classes are created on the fly; the record holds the type, the input
+        # and the observed outcome in text form, re-running the check with the same VERIF_SEED regenerates the case
+        print(json.dumps(case["case"], indent=1)); sys.exit(1 if case.get("found_failing_input", True) else 0)
     if not hasattr(mod, "replay"):
         print(json.dumps(case["case"], indent=1)); sys.exit(0)
     rc = mod.replay(case["case"])
